@@ -134,7 +134,8 @@ class PyRunner:
         except subprocess.TimeoutExpired:
             return ["VIOL %s ? ? timeout (non-termination)" % prop]
         try:
-            return [l.strip() for l in open(os.path.join(d, "viol")) if l.startswith("VIOL " + prop + " ")]
+            return [l.strip().replace("VIOL * ", "VIOL " + prop + " ", 1) for l in open(os.path.join(d, "viol"))
+                    if l.startswith("VIOL " + prop + " ") or l.startswith("VIOL * ")]
         except OSError:
             return []
 
